@@ -318,6 +318,27 @@ pub fn test_tool(case: &TrainCase) -> TestResult {
     Ok(info.class(true, "train-wrote-model").class(!spec.tag_models.is_empty(), "model-has-tag-models"))
 }
 
+/// A corpus of 600 sentences over a 2,000-character alphabet: tens of thousands of distinct
+/// n-grams, a model of about 1 MB (larger than the 128 KiB blocks of the programs' compressor).
+fn big_corpus_case() -> TrainCase {
+    use vcommon::oracle::RefSentence;
+    let ch = |i: usize| char::from_u32(0x4E00 + (i % 2000) as u32).unwrap();
+    let corpus = (0..600usize)
+        .map(|s| {
+            let n = 20 + s % 17;
+            let chars: Vec<char> = (0..n).map(|i| ch(s * 31 + i * 7 + (i * i) % 13)).collect();
+            let labels: Vec<u8> = (0..n - 1).map(|i| ((i + s) % 3 == 0) as u8).collect();
+            RefSentence { chars, labels, tags: vec![vec![]; n], n_tags: 0 }
+        })
+        .collect();
+    TrainCase {
+        cfg: train::TrainCfg { charw: 3, charn: 3, typew: 3, typen: 3, dict: vec![[ch(1), ch(8)].iter().collect()], dictn: 4, solver: 1 },
+        corpus,
+        tag_dict: vec![],
+        eval: vec![(0..30).map(|i| ch(i * 7)).collect()],
+    }
+}
+
 /// A dictionary whose trained model decodes to `n_words * word_len * 5` bytes and more (every
 /// dictionary word of k characters stores k + 1 weights): models of the size real dictionaries
 /// give, which no small corpus reaches.
@@ -373,6 +394,21 @@ Non-trivial = differing windows, n > window, a zero parameter or a degenerate co
         n,
         case_strategy,
         test_case,
+    );
+    rep.run_enum(
+        "big-corpus",
+        "600 sentences over a 2,000-character alphabet (a model of about 1 MB, more than the 128 \
+KiB blocks of the compressor the programs write through): the library clauses of train-total \
+and the same corpus through the shipped train program",
+        false,
+        std::iter::once(big_corpus_case()),
+        |c: &TrainCase| {
+            test_case(c)?;
+            test_tool(c).map(|mut i| {
+                i.nontrivial = true;
+                i
+            })
+        },
     );
     let n = rep.n(1500, 40000);
     rep.run_prop(
